@@ -936,6 +936,14 @@ def record_cases(rng: random.Random) -> List[TCase]:
             xx = ("VList", [x]) if a_[0] == "AList" else x
             for sig in (False, True):
                 out.append(TCase(base, a_, xx, sig, "records"))
+    # unions of several arbitrary classes: an instance of any of them conforms
+    ca, cb = ("AClass", N(G.C_PLAIN)), ("AClass", N(G.C_UNHASH))
+    oa, ob = ("VObj", N(G.C_PLAIN), []), ("VObj", N(G.C_UNHASH), [])
+    for a_ in (("AUnion", [ca, cb]), ("AUnion", [cb, ca, ("ANone",)]), ("AList", ("AUnion", [ca, cb])), ("AUnion", [ca, sc("KInt"), cb])):
+        for x in (oa, ob, G.NONE, I(1), S("a")):
+            xx = ("VList", [x, ob]) if a_[0] == "AList" else x
+            for sig in (False, True):
+                out.append(TCase(base, a_, xx, sig, "records"))
     # the tuple of no slots, Tuple[()]: only the empty tuple (and, in default mode, the empty list) - bare, as a
     # union variant, as a list item
     e_ = ("ATupleN", [])
